@@ -376,6 +376,20 @@ func H_C11_Process_passthrough() {
 func H_C17_FlushAll() {
 	G, E := verifParam("G"), verifParam("E")
 	s := symFilter(G, E)
+	if nondetBool() {
+		// the filter may have been flushed / closed before (while it held nothing) and been used again since: whatever
+		// such a call leaves behind besides the gated groups must not change what the next one does
+		g, l := s.w.gated, s.w.orderedGated
+		s.w.gated, s.w.orderedGated = nil, nil
+		if nondetBool() {
+			s.w.Close(context.Background())
+		} else {
+			s.w.FlushAll(context.Background())
+		}
+		s.w.gated, s.w.orderedGated = g, l
+		gLog.composes, gLog.sends = nil, nil
+		verifReach("C17.flushall.after-earlier-close")
+	}
 	var err error
 	if nondetBool() {
 		err = s.w.FlushAll(context.Background())
